@@ -30,6 +30,9 @@ warnings.filterwarnings("ignore")
 
 K_ADDNODE, K_ADDEDGE, K_DELEDGE, K_DELNODE, K_SWAP, K_SETATTR, K_UNDO, K_REDO, K_PAINT = range(1, 10)
 K_ENABLE, K_DISABLE = 10, 11
+K_REBUILD = 12
+REBUILD_MODES_SEG = [0, 1, 2, 3, 4, 5, 6, 7, 8, 11, 12, 15, 16]      # RebuildModes of MC.tla
+REBUILD_MODES_NOSEG = [0, 1, 2, 3, 4, 5, 6, 7, 16]
 KP_ADDNODE, KP_DELNODE, KP_ADDEDGE, KP_DELEDGE, KP_UPDTIDS, KP_UPDSEG, KP_UPDATTRS = range(21, 28)
 CUSTOM_KEY = "vx_custom"
 ECUSTOM_KEY = "vx_ecustom"
@@ -145,6 +148,57 @@ class Driver:
             g.add_edge(u - nshift, v - nshift, **b)
         seg = None if tr.segmentation is None else np.array(tr.segmentation, copy=True)
         return Driver(self.cfg, graph=g, seg=seg, shift=shift, ecust=bool(rb.get("ecust")), nshift=nshift)
+
+    def reconstruct(self, mode):
+        """Call 12: replace self.tracks by a NEW SolutionTracks constructed from a copy of the current graph
+        (and array).  mode bits: 1 track ids removed from the copy, 2 lineage ids removed, 4 through Tracks(...)
+        and SolutionTracks.from_tracks, 8 position and area removed (segmentation only), 16 constructed with
+        features = a copy of the old object's FeatureDict."""
+        import copy
+
+        from funtracks.data_model import Tracks
+        cfg, tr = self.cfg, self.tracks
+        drop = set()
+        if mode & 1:
+            drop.add(tr.features.tracklet_key)
+        if mode & 2:
+            drop.add(tr.features.lineage_key)
+        if mode & 8 and cfg.has_seg:
+            drop.update(["pos", "area"])
+        g = nx.DiGraph()
+        for n, a in tr.graph.nodes(data=True):
+            g.add_node(n, **{k: v for k, v in a.items() if k not in drop})
+        for u, v, a in tr.graph.edges(data=True):
+            g.add_edge(u, v, **dict(a))
+        kw = {}
+        if cfg.has_seg:
+            kw["segmentation"] = np.array(tr.segmentation, copy=True)
+            kw["scale"] = [1, *cfg.scale] if cfg.use_scale else None
+        else:
+            kw["ndim"] = 3
+        if mode & 16:
+            new = SolutionTracks(g, features=copy.deepcopy(tr.features), **kw)
+        else:
+            if cfg.per_axis_pos and not cfg.has_seg:
+                kw["pos_attr"] = ["y", "x"]
+            new = SolutionTracks.from_tracks(Tracks(g, **kw)) if mode & 4 else SolutionTracks(g, **kw)
+        self.tracks = new
+        self._after_construction()
+
+    def _after_construction(self):
+        cfg = self.cfg
+        if cfg.reg_cust and CUSTOM_KEY not in self.tracks.features:
+            self.tracks.features[CUSTOM_KEY] = {
+                "feature_type": "node", "value_type": "int", "num_values": 1,
+                "display_name": "custom", "required": False, "default_value": None}
+        if self.ecust and ECUSTOM_KEY not in self.tracks.features:
+            self.tracks.features[ECUSTOM_KEY] = {
+                "feature_type": "edge", "value_type": "int", "num_values": 1,
+                "display_name": "edge custom", "required": False, "default_value": None}
+        if cfg.enable:
+            self.tracks.enable_features([FEAT[k] for k in cfg.enable])
+        self.emits = []
+        self.tracks.refresh.connect(self._on_refresh)
 
     def _on_refresh(self, *args):
         a = args[0] if args else None
@@ -276,6 +330,8 @@ class Driver:
                 if c[1] & 256:
                     keys.append("no_such_feature")
                 tr.disable_features(keys)
+            elif k == K_REBUILD:
+                self.reconstruct(c[1])
             else:
                 raise RuntimeError(f"unknown call {c}")
             return True, "ok", list(self.emits), ret
@@ -572,6 +628,8 @@ def alphabet(drv: Driver, kinds=None, wide=True):
         masks = SWITCH_MASKS_SEG if cfg.has_seg else SWITCH_MASKS_NOSEG
         out += [[K_ENABLE, m, r, 0, 0] for m in masks for r in (0, 1)]
         out += [[K_DISABLE, m, 0, 0, 0] for m in masks]
+    if K_REBUILD in kinds:
+        out += [[K_REBUILD, m, 0, 0, 0] for m in (REBUILD_MODES_SEG if cfg.has_seg else REBUILD_MODES_NOSEG)]
     if K_PAINT in kinds and cfg.has_seg:
         g = tr.graph
         for t in range(T):
